@@ -89,10 +89,14 @@ def run_case(ctx, P, stream, idx):
         dry = r.random() < 0.5
         recursive = r.random() < 0.5
         sa_sub = emit.startswith("sqlalchemy") and r.random() < 0.6
-        where = r.choice(("outside", "outside", "inside", "nested-absent", "named-gold"))
+        where = r.choice(("outside", "outside", "inside", "nested-absent", "named-gold", "named-module", "named-module"))
+        # the target module name defaults to `gold`; a directory named after it - or after the exposed module, the
+        # natural choice (`-m shopkit -o build/shopkit`) - is compared with the module names inside exmod
+        target = r.choice((None, None, "api"))
         out = {"outside": os.path.join(case_dir, "out"), "inside": os.path.join(purelib, pkg, "_generated"),
                "nested-absent": os.path.join(case_dir, "a", "b", "out"),
-               "named-gold": os.path.join(case_dir, "x", "gold")}[where]  # the default target module name is `gold`
+               "named-gold": os.path.join(case_dir, "x", target or "gold"),
+               "named-module": os.path.join(case_dir, "y", *module.split("."))}[where]
         pre_exists = where != "nested-absent" and r.random() < 0.6
         if pre_exists:
             os.makedirs(out)
@@ -108,6 +112,8 @@ def run_case(ctx, P, stream, idx):
             argv.append("-r")
         if sa_sub:
             argv.append("--emit-sqlalchemy-submodule")
+        if target:
+            argv += ["--target-module-name", target]
         if excl == "blacklist-self":
             argv += ["--blacklist", module]
         elif excl == "whitelist-other":
@@ -117,7 +123,7 @@ def run_case(ctx, P, stream, idx):
         elif excl == "blacklist-deep":
             argv += ["--blacklist", "deep"]
         cfg = {"module": module.replace(pkg, "PKG"), "emit": emit, "dry_run": dry, "recursive": recursive,
-               "sqlalchemy_submodule": sa_sub, "output": where, "output_pre_exists": pre_exists, "exclusion": excl}
+               "sqlalchemy_submodule": sa_sub, "output": where, "output_pre_exists": pre_exists, "exclusion": excl, "target_module_name": target}
         src_snap = fsnap.snapshot(os.path.join(purelib, pkg))
         snap0 = fsnap.snapshot(root)
         env = dict(os.environ, PYTHONPATH=REPO, PYTHONDONTWRITEBYTECODE="1")
@@ -217,8 +223,17 @@ def run_case(ctx, P, stream, idx):
             if excl == "blacklist-deep" and recursive:
                 deep = [p for p in emitted_py if os.path.relpath(os.path.join(root, p), out).split(os.sep)[0] == "deep"]
                 if deep:
-                    dev("excluded-subpackage-emitted", "sub-package excluded by --blacklist deep produced %r" % deep[:5])
+                    # mechanism: the output directory carries the target module's name, so emit_file_on_hierarchy lays
+                    # the file of a symbol that the (not excluded) parent re-exports out under <out>/deep/ instead of
+                    # <out>/ - the excluded package is re-created although the recursion into it was skipped
+                    mech = ("exmod.output-dir-named-like-target-module-recreates-excluded-package|"
+                            if where == "named-gold" else "")
+                    P.deviation(mech + "exmod.excluded-subpackage-emitted|%s" % feats,
+                                "sub-package excluded by --blacklist deep produced %r" % deep[:5], w)
     finally:
+        if os.environ.get("VCDD_KEEP"):  # debugging aid: keep a copy of the case for inspection
+            shutil.copytree(case_dir, os.path.join(os.environ["VCDD_KEEP"], os.path.basename(case_dir)), dirs_exist_ok=True)
+            shutil.copytree(os.path.join(purelib, pkg), os.path.join(os.environ["VCDD_KEEP"], pkg), dirs_exist_ok=True)
         shutil.rmtree(os.path.join(purelib, pkg), ignore_errors=True)
         shutil.rmtree(case_dir, ignore_errors=True)
         if os.path.exists(log):
